@@ -2,6 +2,7 @@
 import MdVerif.Model.Writer
 import MdVerif.Model.FileSys
 import MdVerif.Model.JoinDiscard
+import MdVerif.Model.TopoEdit
 namespace MdVerif.Driver.WriterP
 open MdVerif.Writer
 
@@ -55,6 +56,24 @@ def handleWriter : List String → String
     match (pieces.splitOn ";").mapM (fun (w : String) => if w == "-" then some [] else (w.splitOn ",").mapM (fun (x : String) => x.toNat?)) with
     | some ps => showNats (MdVerif.JoinDiscard.joinDiscard (fun x y => x == y) ps)
     | none => "bad-op"
+  -- topedit <n> <u-v,…|-> <i<k>:<uid>;d<k>;…|->: n atoms with uids 0..n-1, bonds between uids, then insertions / deletions (refused ones change
+  -- nothing); prints the uids in list order, their index fields and the bonds as pairs of positions
+  | ["topedit", n, bonds, ops] =>
+    let pb := fun (w : String) => match w.splitOn "-" with
+      | [u, v] => do let u ← u.toNat?; let v ← v.toNat?; pure (u, v)
+      | _ => none
+    let po := fun (w : String) =>
+      if w.startsWith "d" then (w.drop 1).toString.toNat?.map MdVerif.TopoEdit.EOp.del
+      else match (w.drop 1).toString.splitOn ":" with
+        | [k, u] => do let k ← k.toNat?; let u ← u.toNat?; pure (MdVerif.TopoEdit.EOp.ins k u)
+        | _ => none
+    match n.toNat?, (if bonds == "-" then some [] else (bonds.splitOn ",").mapM pb), (if ops == "-" then some [] else (ops.splitOn ";").mapM po) with
+    | some n, some bs, some os =>
+      let t := MdVerif.TopoEdit.runE ⟨(List.range n).map (fun k => ⟨k, k⟩), bs⟩ os
+      let pos := fun (u : Nat) => (t.atoms.findIdx? (fun a => a.uid == u)).getD 999999
+      s!"{showNats (t.atoms.map (·.uid))} | {showNats (t.atoms.map (·.index))} | " ++
+        ",".intercalate (t.bonds.map (fun b => s!"{pos b.1}-{pos b.2}"))
+    | _, _, _ => "bad-op"
   | ["save", ex, force] =>
     let r := save (⟨if ex == "1" then some 0 else none⟩ : FS Nat) (force == "1") 1
     s!"raised={r.2} content={match r.1.file with | none => "none" | some 0 => "old" | some _ => "new"}"
